@@ -19,6 +19,7 @@
 //! An output's content is a digest of the command line, the contents of its dirtying inputs and of
 //! the reported dependencies (deterministic, hermetic commands).
 use crate::util::*;
+use crate::raw_string;
 use std::cell::RefCell;
 use std::collections::HashMap;
 use std::fmt::Write as _;
@@ -341,7 +342,7 @@ fn tree_listing(dir: &Path, prefix: &str, out: &mut Vec<String>) {
 }
 
 pub fn hist_line(line: &str) -> String {
-    let text = String::from_utf8(unhex(line)).unwrap();
+    let text = raw_string(unhex(line));
     let dir = std::env::temp_dir().join(format!(
         "n2verif-{}-{}",
         std::process::id(),
@@ -375,17 +376,17 @@ pub fn hist_line(line: &str) -> String {
         }
         match w[0] {
             "file" => {
-                let name = String::from_utf8(unhex(w[1])).unwrap();
+                let name = raw_string(unhex(w[1]));
                 write_file(&mut shared.borrow_mut(), &name, &unhex(w[2]));
             }
             "touch" => {
-                let name = String::from_utf8(unhex(w[1])).unwrap();
+                let name = raw_string(unhex(w[1]));
                 if Path::new(&name).exists() {
                     set_mtime(&mut shared.borrow_mut(), &name);
                 }
             }
             "del" => {
-                let name = String::from_utf8(unhex(w[1])).unwrap();
+                let name = raw_string(unhex(w[1]));
                 let _ = std::fs::remove_file(&name);
             }
             "trunc" => {
@@ -411,13 +412,13 @@ pub fn hist_line(line: &str) -> String {
                 let mname = if w[4] == "-" {
                     None
                 } else {
-                    Some(String::from_utf8(unhex(w[4])).unwrap())
+                    Some(raw_string(unhex(w[4])))
                 };
                 let targets: Vec<String> = if w[5] == "-" {
                     Vec::new()
                 } else {
                     w[5].split(',')
-                        .map(|t| String::from_utf8(unhex(t)).unwrap())
+                        .map(|t| raw_string(unhex(t)))
                         .collect()
                 };
                 let script: Vec<(usize, u8)> = if w[6] == "-" {
